@@ -210,4 +210,221 @@ theorem sealTail_spec (hinj : Function.Injective H) {P : Addr → Prop} {st : St
       obtain ⟨t0, e0, s0, i0, o0⟩ := hwf hh s hs
       exact ⟨t0, e0, s0, InDB.mono H hdbsub i0, o0⟩
 
+/-- What hashing and saving do to the state. -/
+structure SaveStep (P : Addr → Prop) (st st' : St) : Prop where
+  stable : RepStable H st st'
+  grows : Grows st st'
+  outside : ∀ (x : Addr) (c : Cell), ¬ P x → st.heap[x]? = some c → st'.heap[x]? = some c
+  len : st'.heap.length = st.heap.length
+  roots : st'.roots = st.roots
+  csize : st'.cacheSize = st.cacheSize
+
+theorem SaveStep.refl (P : Addr → Prop) (st : St) : SaveStep H P st st :=
+  ⟨RepStable.refl H st, Grows.refl st, fun _ _ _ h => h, rfl, rfl, rfl⟩
+
+theorem SaveStep.trans {P : Addr → Prop} {st st1 st2 : St} (h1 : SaveStep H P st st1) (h2 : SaveStep H P st1 st2) :
+    SaveStep H P st st2 :=
+  ⟨h1.stable.trans H h2.stable, h1.grows.trans h2.grows,
+    fun x c hx hc => h2.outside x c hx (h1.outside x c hx hc), h2.len.trans h1.len, h2.roots.trans h1.roots,
+    h2.csize.trans h1.csize⟩
+
+theorem SaveStep.mono {P P' : Addr → Prop} {st st' : St} (h : SaveStep H P st st') (hP : ∀ x, P x → P' x) :
+    SaveStep H P' st st' :=
+  ⟨h.stable, h.grows, fun x c hx hc => h.outside x c (fun hp => hx (hP x hp)) hc, h.len, h.roots, h.csize⟩
+
+/-- Filling in a correct child hash on an unpersisted object keeps everything. -/
+theorem fillHash_step {P : Addr → Prop} {st : St} {a : Addr} {c c' : Cell} {k : Bytes} {h s ver : Nat} {l r : Node}
+    (hrep : Rep H P st (.inner k h s l r ver) a) (ha : st.heap[a]? = some c) (hnp : c.persisted = false)
+    (hc : CacheOK st)
+    (hc' : (c' = { c with leftHash := some (treeHash H l) } ∧ c.leftPtr.isSome) ∨
+           (c' = { c with rightHash := some (treeHash H r) } ∧ c.rightPtr.isSome)) :
+    SaveStep H P st (st.write a c') ∧ CacheOK (st.write a c') := by
+  have hPa : P a := hrep.1
+  have hother : ∀ (x : Addr) (cx : Cell), x ≠ a → st.heap[x]? = some cx → (st.write a c').heap[x]? = some cx :=
+    fun x cx hx hcx => by rw [write_other st c' hx]; exact hcx
+  have hpers : c'.persisted = false := by
+    rcases hc' with ⟨rfl, _⟩ | ⟨rfl, _⟩ <;> exact hnp
+  refine ⟨⟨?_, ?_, fun x cx hx hcx => hother x cx (fun e => hx (e ▸ hPa)) hcx, write_len _ _ _, rfl, rfl⟩, ?_⟩
+  · refine update_preserves H hrep hother (fun _ _ h => h) (fun P' hk hrep' => ?_)
+    obtain ⟨hp, c0, hc0, h1, h2, h3, h4, h5, hl, hr, h8, h9⟩ := hrep'
+    rw [ha] at hc0; cases hc0
+    have hl' : ChildOK (Rep H P' (st.write a c') l) (treeHash H l) (InDB H st.db l) c.leftPtr c.leftHash :=
+      hl.imp (fun q hq => hk.1 P' q hq) id
+    have hr' : ChildOK (Rep H P' (st.write a c') r) (treeHash H r) (InDB H st.db r) c.rightPtr c.rightHash :=
+      hr.imp (fun q hq => hk.2 P' q hq) id
+    rcases hc' with ⟨rfl, hsome⟩ | ⟨rfl, hsome⟩
+    · refine ⟨hp, _, write_same ha _, h1, h2, h3, h4, h5, ?_, hr', h8, fun hp' => by rw [hnp] at hp'; cases hp'⟩
+      cases hq : c.leftPtr with
+      | none => rw [hq] at hsome; cases hsome
+      | some q =>
+        simp only [ChildOK, hq] at hl' ⊢
+        exact ⟨hl'.1, Or.inr trivial⟩
+    · refine ⟨hp, _, write_same ha _, h1, h2, h3, h4, h5, hl', ?_, h8, fun hp' => by rw [hnp] at hp'; cases hp'⟩
+      cases hq : c.rightPtr with
+      | none => rw [hq] at hsome; cases hsome
+      | some q =>
+        simp only [ChildOK, hq] at hr' ⊢
+        exact ⟨hr'.1, Or.inr trivial⟩
+  · refine ⟨fun x cx hcx => ?_, Nat.le_of_eq (write_len _ _ _).symm, fun _ _ h => h⟩
+    by_cases hx : x = a
+    · subst hx
+      rw [ha] at hcx; cases hcx
+      refine ⟨c', write_same ha _, ?_⟩
+      obtain ⟨_, c0, hc0, _, _, _, _, _, hl, hr, _, _⟩ := hrep
+      rw [ha] at hc0; cases hc0
+      rcases hc' with ⟨rfl, hsome⟩ | ⟨rfl, hsome⟩
+      · cases hq : c.leftPtr with
+        | none => rw [hq] at hsome; cases hsome
+        | some q =>
+          simp only [ChildOK, hq] at hl
+          rcases hl.2 with e | e <;> simp [cellLe, hnp, e, hq]
+      · cases hq : c.rightPtr with
+        | none => rw [hq] at hsome; cases hsome
+        | some q =>
+          simp only [ChildOK, hq] at hr
+          rcases hr.2 with e | e <;> simp [cellLe, hnp, e, hq]
+    · exact ⟨cx, hother x cx hx hcx, cellLe_refl cx⟩
+  · refine CacheOK.transfer hc (fun x cx hcx hp => hother x cx (fun e => ?_) hcx) (fun _ _ h => h) (fun _ _ h => h)
+    subst e; rw [ha] at hcx; cases hcx; rw [hnp] at hp; cases hp
+
+/-- `if node.leftNode != nil { node.leftHash = ndb.SaveBranch(node.leftNode) }` -/
+def saveLeftChild (fuel : Nat) (st : St) (a : Addr) (c : Cell) : Option St :=
+  match c.leftPtr with
+  | some p => do
+    let (st, lh) ← saveBranch H fuel st p
+    st.modify a (fun c => { c with leftHash := some lh })
+  | none => some st
+
+/-- `if node.rightNode != nil { node.rightHash = ndb.SaveBranch(node.rightNode) }` -/
+def saveRightChild (fuel : Nat) (st : St) (a : Addr) (c : Cell) : Option St :=
+  match c.rightPtr with
+  | some p => do
+    let (st, rh) ← saveBranch H fuel st p
+    st.modify a (fun c => { c with rightHash := some rh })
+  | none => some st
+
+theorem saveBranch_unfold (fuel : Nat) (st : St) (a : Addr) (c : Cell) (ha : st.heap[a]? = some c)
+    (hnp : c.persisted = false) :
+    saveBranch H (fuel + 1) st a =
+      (saveLeftChild H fuel st a c).bind (fun st => (saveRightChild H fuel st a c).bind (fun st => sealTail H st a)) := by
+  simp only [saveBranch, ha, hnp, Option.bind_eq_bind, Option.bind_some, Bool.false_eq_true, if_false, sealTail,
+    saveLeftChild, saveRightChild]
+  cases c.leftPtr <;> cases c.rightPtr <;> simp only [Option.bind_some, Option.bind_assoc] <;> rfl
+
+/-- **`SaveBranch` keeps every representation** (`RepStable`): after it the object is persisted, the
+whole tree is in the DB under its Merkle hash, no object outside the footprint was touched, every
+object evolved by `cellLe`, and cache / DB invariants hold.  Needs an injective hash and an ordered
+tree (the inner key is not hashed). -/
+theorem saveBranch_spec (hinj : Function.Injective H) :
+    ∀ (t : Node) (fuel : Nat) (P : Addr → Prop) (st : St) (a : Addr), depth t < fuel → Rep H P st t a → t.Ord →
+      CacheOK st → DBWF H st.db →
+      ∃ st', saveBranch H fuel st a = some (st', treeHash H t) ∧ SaveStep H P st st' ∧ CacheOK st' ∧
+        DBWF H st'.db ∧ (∃ c', st'.heap[a]? = some c' ∧ c'.persisted = true) := by
+  intro t
+  induction t with
+  | leaf k v ver =>
+    intro fuel P st a hfuel hrep ho hc hwf
+    obtain ⟨fuel, rfl⟩ : ∃ f, fuel = f + 1 := ⟨fuel - 1, by omega⟩
+    obtain ⟨hPa, c, ha, _, _, _, _, _, hhash, hpers⟩ := Rep.cell H hrep
+    cases hp : c.persisted with
+    | true =>
+      refine ⟨st, ?_, SaveStep.refl H P st, hc, hwf, ⟨c, ha, hp⟩⟩
+      simp [saveBranch, ha, hp, (hpers hp).1]
+    | false =>
+      have hrep0 := hrep
+      obtain ⟨_, c0, hc0, _, _, _, _, _, hlp, hrp, _⟩ := hrep0
+      rw [ha] at hc0; cases hc0
+      obtain ⟨st', e, hst, hgr, hoth, hlen, hroots, hcs, hc', hwf', hfin⟩ :=
+        sealTail_spec H hinj hrep ha hp trivial ho hc hwf
+      refine ⟨st', ?_, ⟨hst, hgr, fun x cx hx hcx => ?_, hlen, hroots, hcs⟩, hc', hwf', hfin⟩
+      · rw [saveBranch_unfold H fuel st a c ha hp]
+        simp only [saveLeftChild, saveRightChild, hlp, hrp, Option.bind_some, e]
+      · rw [hoth x (fun e => hx (e ▸ hPa))]; exact hcx
+  | inner k h s l r ver ihl ihr =>
+    intro fuel P st a hfuel hrep ho hc hwf
+    obtain ⟨fuel, rfl⟩ : ∃ f, fuel = f + 1 := ⟨fuel - 1, by omega⟩
+    have hdl : depth l < fuel := by simp only [depth] at hfuel; omega
+    have hdr : depth r < fuel := by simp only [depth] at hfuel; omega
+    have hdl' : depth l < depth (.inner k h s l r ver) := by simp only [depth]; omega
+    have hdr' : depth r < depth (.inner k h s l r ver) := by simp only [depth]; omega
+    obtain ⟨hol, hor, _, _⟩ := ho
+    have ho : (Node.inner k h s l r ver).Ord := ⟨hol, hor, by assumption, by assumption⟩
+    obtain ⟨hPa, c, ha, _, _, _, _, _, hhash, hpers⟩ := Rep.cell H hrep
+    cases hp : c.persisted with
+    | true =>
+      refine ⟨st, ?_, SaveStep.refl H P st, hc, hwf, ⟨c, ha, hp⟩⟩
+      simp [saveBranch, ha, hp, (hpers hp).1]
+    | false =>
+      let Pa : Addr → Prop := fun x => P x ∧ x ≠ a
+      have hPaP : ∀ x, Pa x → P x := fun _ hx => hx.1
+      have hnotPa : ¬ Pa a := fun hx => hx.2 rfl
+      -- left child
+      have hleft : ∃ st2 c2, saveLeftChild H fuel st a c = some st2 ∧ st2.heap[a]? = some c2 ∧
+          c2 = { c with leftHash := some (treeHash H l) } ∧ InDB H st2.db l ∧
+          SaveStep H P st st2 ∧ CacheOK st2 ∧ DBWF H st2.db := by
+        have hrep0 := hrep
+        obtain ⟨_, c0, hc0, _, _, _, _, _, hl, _, _, _⟩ := hrep0
+        rw [ha] at hc0; cases hc0
+        cases hq : c.leftPtr with
+        | none =>
+          simp only [ChildOK, hq] at hl
+          refine ⟨st, c, by simp only [saveLeftChild, hq], ha, ?_, hl.2, SaveStep.refl H P st, hc, hwf⟩
+          cases c; simp_all
+        | some p =>
+          simp only [ChildOK, hq] at hl
+          have hrl : Rep H Pa st l p := Rep.avoid H hrep l p hdl' hl.1
+          obtain ⟨st1, e1, hs1, hc1, hwf1, cp, hcp, hpp⟩ := ihl fuel Pa st p hdl hrl hol hc hwf
+          have ha1 : st1.heap[a]? = some c := hs1.outside a c hnotPa ha
+          have hrep1 : Rep H P st1 (.inner k h s l r ver) a := hs1.stable P _ a hrep
+          have hrl1 : Rep H Pa st1 l p := hs1.stable Pa l p hrl
+          have hindb : InDB H st1.db l := Rep.inDB_of_persisted H hrl1 hcp hpp
+          obtain ⟨hs2, hc2⟩ := fillHash_step H (c' := { c with leftHash := some (treeHash H l) }) hrep1 ha1 hp hc1
+            (Or.inl ⟨rfl, by rw [hq]; rfl⟩)
+          refine ⟨st1.write a { c with leftHash := some (treeHash H l) }, _, ?_, write_same ha1 _, by rw [hq], hindb,
+            (hs1.mono H hPaP).trans H hs2, hc2, hwf1⟩
+          simp only [saveLeftChild, hq, e1, Option.bind_eq_bind, Option.bind_some, modify_eq ha1]
+      obtain ⟨st2, c2, e2, ha2, hc2eq, hindbl, hs2, hc2, hwf2⟩ := hleft
+      have hrep2 : Rep H P st2 (.inner k h s l r ver) a := hs2.stable P _ a hrep
+      have hp2 : c2.persisted = false := by rw [hc2eq]; exact hp
+      -- right child
+      have hright : ∃ st4 c4, saveRightChild H fuel st2 a c = some st4 ∧ st4.heap[a]? = some c4 ∧
+          c4 = { c2 with rightHash := some (treeHash H r) } ∧ InDB H st4.db r ∧
+          SaveStep H P st2 st4 ∧ CacheOK st4 ∧ DBWF H st4.db := by
+        have hrep0 := hrep2
+        obtain ⟨_, c0, hc0, _, _, _, _, _, _, hr, _, _⟩ := hrep0
+        rw [ha2] at hc0; cases hc0
+        have hrp : c2.rightPtr = c.rightPtr := by rw [hc2eq]
+        have hrh : c2.rightHash = c.rightHash := by rw [hc2eq]
+        cases hq : c.rightPtr with
+        | none =>
+          rw [hrp] at hr
+          simp only [ChildOK, hq] at hr
+          refine ⟨st2, c2, by simp only [saveRightChild, hq], ha2, ?_, hr.2, SaveStep.refl H P st2, hc2, hwf2⟩
+          cases c2; simp_all
+        | some p =>
+          rw [hrp] at hr
+          simp only [ChildOK, hq] at hr
+          have hrr : Rep H Pa st2 r p := Rep.avoid H hrep2 r p hdr' hr.1
+          obtain ⟨st3, e3, hs3, hc3, hwf3, cp, hcp, hpp⟩ := ihr fuel Pa st2 p hdr hrr hor hc2 hwf2
+          have ha3 : st3.heap[a]? = some c2 := hs3.outside a c2 hnotPa ha2
+          have hrep3 : Rep H P st3 (.inner k h s l r ver) a := hs3.stable P _ a hrep2
+          have hrr3 : Rep H Pa st3 r p := hs3.stable Pa r p hrr
+          have hindb : InDB H st3.db r := Rep.inDB_of_persisted H hrr3 hcp hpp
+          obtain ⟨hs4, hc4⟩ := fillHash_step H (c' := { c2 with rightHash := some (treeHash H r) }) hrep3 ha3 hp2 hc3
+            (Or.inr ⟨rfl, by rw [hrp, hq]; rfl⟩)
+          refine ⟨st3.write a { c2 with rightHash := some (treeHash H r) }, _, ?_, write_same ha3 _, rfl, hindb,
+            (hs3.mono H hPaP).trans H hs4, hc4, hwf3⟩
+          simp only [saveRightChild, hq, e3, Option.bind_eq_bind, Option.bind_some, modify_eq ha3]
+      obtain ⟨st4, c4, e4, ha4, hc4eq, hindbr, hs4, hc4, hwf4⟩ := hright
+      have hrep4 : Rep H P st4 (.inner k h s l r ver) a := hs4.stable P _ a hrep2
+      have hp4 : c4.persisted = false := by rw [hc4eq]; exact hp2
+      have hready : Ready H st4.db (.inner k h s l r ver) c4 :=
+        ⟨by rw [hc4eq, hc2eq], by rw [hc4eq], InDB.mono H hs4.grows.db hindbl, hindbr⟩
+      obtain ⟨st', e, hst, hgr, hoth, hlen, hroots, hcs, hc', hwf', hfin⟩ :=
+        sealTail_spec H hinj hrep4 ha4 hp4 hready ho hc4 hwf4
+      have hs5 : SaveStep H P st4 st' :=
+        ⟨hst, hgr, fun x cx hx hcx => by rw [hoth x (fun e => hx (e ▸ hPa))]; exact hcx, hlen, hroots, hcs⟩
+      refine ⟨st', ?_, (hs2.trans H hs4).trans H hs5, hc', hwf', hfin⟩
+      rw [saveBranch_unfold H fuel st a c ha hp, e2, Option.bind_some, e4, Option.bind_some, e]
+
 end Iavl.Heap
